@@ -28,6 +28,7 @@ type replayFile struct {
 }
 
 var (
+	replayPath string
 	replay   *replayFile
 	seq      int
 	Failures []string
@@ -40,7 +41,10 @@ func load() {
 		return
 	}
 	replay = &replayFile{Model: map[string]uint64{}}
-	p := os.Getenv("VRT_REPLAY")
+	p := replayPath
+	if p == "" {
+		p = os.Getenv("VRT_REPLAY")
+	}
 	if p == "" {
 		return
 	}
@@ -170,6 +174,13 @@ func MaxMake() int { return 0 }
 // Spawned returns how many goroutines whose function name contains substr
 // were started so far (engine only; natively 0).
 func Spawned(substr string) int { return 0 }
+
+// RunReplayFile is RunReplay with an explicit replay file.
+func RunReplayFile(path string, f func()) string {
+	replayPath = path
+	defer func() { replayPath = "" }()
+	return RunReplay(f)
+}
 
 // RunReplay runs harness f natively against the replay file and returns the
 // outcome in the form the driver expects.
